@@ -238,7 +238,7 @@ struct Run : ContBase {
         if (!t) c.fail(FUNC, "listtbl:ctor", "qlisttbl() returned NULL");
         int maxops = c.tier ? 1500 : 300, ops = 0;
         while (!s.exhausted() && ops++ < maxops) {
-            int o = (int)s.pick({30, 10, 8, 8, 10, 2, 5, 1, 1, loadable_case ? 6 : 0, 2});
+            int o = (int)s.pick({30, 10, 8, 8, 10, 2, 5, 1, 1, loadable_case ? 6 : 0, 2, 2});
             const char *what = "op";
             switch (o) {
                 case 0: do_put(gen_key()); what = "put"; break;
@@ -251,6 +251,11 @@ struct Run : ContBase {
                 case 7: qlisttbl_clear(t); c.op("clear()"); note_outlived(); m.v.clear(); verify_kept(false); what = "clear"; break;
                 case 8: { if (!devnull) devnull = fopen("/dev/null", "w"); bool ok = qlisttbl_debug(t, devnull); c.op("debug()"); if (!ok) c.fail(FUNC, "listtbl:debug", "debug() returned false"); what = "debug"; break; }
                 case 9: do_saveload(); what = "save/load"; break;
+                case 11: { // burst: many entries under one key (getmulti array growth boundaries 10, 20, 40)
+                    std::string k = gen_key(); long n = s.pick({1, 1, 1, 1}) == 0 ? 10 : s.pick({1, 1}) == 0 ? s.range(8, 12) : s.range(18, 42);
+                    size_t have = m.lookup(&k).size(); if (!m.o.unique && have < (size_t)n && s.boolean()) n -= (long)have;
+                    for (long i = 0; i < n; i++) do_put(k);
+                    do_getmulti(k); what = "burst"; break; }
                 default: c.op("compare-all"); what = "compare";
             }
             check_size(what);
